@@ -149,28 +149,68 @@ func c14R1(r *Report) {
 	// Close releases the remainder
 	r.Fn(wc)
 	countF := p.Field("tor", "writer", "count")
-	okDrop := false
-	allInstrs(wc, func(in ssa.Instruction) {
+	// every path through Close (or the private helper it delegates to) emits TorDrop{…, Length: w.count} or has found the
+	// remaining count to be zero
+	isDrop := func(in ssa.Instruction) bool {
 		mi, ok := in.(*ssa.MakeInterface)
 		if !ok {
-			return
+			return false
 		}
 		sl := litOf(mi)
 		if sl == nil || sl.Type != "peer.TorDrop" {
-			return
+			return false
 		}
 		lf, _ := loadedField(sl.Fields["Length"])
-		under := false
-		for _, g := range guardsOf(mi.Block()) {
-			g = g.norm()
-			if bo, ok := g.Cond.(*ssa.BinOp); ok && bo.Op == token.GTR && g.Pol {
-				if f2, _ := loadedField(bo.X); f2 == countF {
-					under = true
-				}
+		return lf == countF
+	}
+	tF := p.Field("tor", "writer", "t")
+	countZero := func(cond ssa.Value, pol bool) bool {
+		// already closed (w.t == nil): the first Close released everything
+		if x, isNil, okn := nilFact(Guard{Cond: cond, Pol: pol}); okn && isNil && tF != nil {
+			if f2, _ := loadedField(x); f2 == tF {
+				return true
 			}
 		}
-		okDrop = lf == countF && under
-	})
+		op, x, y, ok := cmpFact(Guard{Cond: cond, Pol: pol})
+		if !ok {
+			return false
+		}
+		if f2, _ := loadedField(stripIntConv(x)); f2 != countF {
+			return false
+		}
+		k, okk := constInt(y)
+		return okk && k == 0 && (op == token.EQL || op == token.LEQ)
+	}
+	isRet := func(i ssa.Instruction) bool { _, ok := i.(*ssa.Return); return ok }
+	memo := map[*ssa.Function]int{}
+	var dropsOnEveryPath func(f *ssa.Function, d int) bool
+	dropsOnEveryPath = func(f *ssa.Function, d int) bool {
+		switch memo[f] {
+		case 1:
+			return true
+		case 2, 3:
+			return false
+		}
+		memo[f] = 3
+		miss, reached := pathsMissingEntry(f, isRet, nil, []edgeReq{{Name: "drop", Match: countZero, Instr: func(in ssa.Instruction) bool {
+			if isDrop(in) {
+				return true
+			}
+			if c, ok := in.(*ssa.Call); ok && d < 2 {
+				if h := c.Call.StaticCallee(); h != nil && h.Blocks != nil && !c.Call.IsInvoke() && relPkg(h) == "tor" && p.inUnitOf(h, wc) {
+					return dropsOnEveryPath(h, d+1)
+				}
+			}
+			return false
+		}}})
+		if reached > 0 && len(miss) == 0 {
+			memo[f] = 1
+			return true
+		}
+		memo[f] = 2
+		return false
+	}
+	okDrop := dropsOnEveryPath(wc, 0)
 	r.Check(okDrop, "R1", "writer.Close/drops-remaining-count", wc.Pos(), "Close reports the remaining reserved bytes as dropped", "writer.Close no longer emits TorDrop{index, offset, count} for the remaining reservation")
 }
 
